@@ -158,6 +158,10 @@ func c14(args []string) int {
 		// litestream's checkpoint finding SQLite's checkpoint lock held by the application's own checkpoint (LCC)
 		{Name: "seeded/base/checkpoint-vs-app-checkpoint", Cfg: cfgs["base"], Alphabet: strings.Fields("LCC:PASSIVE LCC:RESTART LCC:TRUNCATE W1 S SW"), Depth: d(2, 3),
 			Seeds: [][]string{strings.Fields("W3 SW W1"), strings.Fields("W3 SW W1 S")}},
+		// litestream is down when the application closes its last connection (SQLite checkpoints and removes the WAL),
+		// then litestream comes back to a database it has replicated before and finds no WAL
+		{Name: "seeded/base/wal-removed-while-down", Cfg: cfgs["base"], Alphabet: strings.Fields("CC CO W1 START NEW S SW LC:TRUNCATE"), Depth: d(4, 5),
+			Seeds: [][]string{strings.Fields("W3 SW CL"), strings.Fields("W3 SW W1 KILL"), strings.Fields("W3 SW LC:TRUNCATE CL")}},
 		{Name: "seeded/base/local-faults", Cfg: cfgs["base"], Alphabet: aFault, Depth: d(2, 4), Seeds: faultSeeds},
 		{Name: "exact/min3/core", Cfg: cfgs["min3"], Alphabet: aCore, Depth: d(3, 5)},
 		{Name: "exact/base/tx", Cfg: cfgs["base"], Alphabet: aTx, Depth: d(3, 5)},
